@@ -305,7 +305,7 @@ def raw_cfg(names, P, sizes, floor, initlen, maxfile, depth, ops, wkinds, pre, d
 def raw_run(prop, tier, seed, plan, interesting, assumptions):
     """plan items: dict(names,P,sizes,initlen,maxfile,depth,ops,wkinds,histk,scales=[bytes per cell])"""
     known_ids = vlib.all_known_devs()
-    raw_devs = sorted(known_ids & {"D1", "D15"})
+    raw_devs = sorted(known_ids & {"D1", "D15", "D8", "D36"})
     tot_states = tot_trans = behaviours = steps = nontrivial = cut = 0
     alloc_checked = alloc_equal = 0
     violations, known_seen, samples, runs, pathcov = [], {}, [], [], {}
@@ -317,9 +317,9 @@ def raw_run(prop, tier, seed, plan, interesting, assumptions):
             base = (item["names"], P, item["sizes"], floor, item.get("initlen", 0), item["maxfile"], item["depth"], item["ops"],
                     item.get("wkinds", ALL_WK), item.get("pre", []))
             with cf.ThreadPoolExecutor(2) as ex:
-                fd = ex.submit(vlib.run_tlc, "MCRawDb", raw_cfg(*base, [], RAW_DESIGN_INVS, False), os.path.join(wd, "design"), 6,
+                fd = ex.submit(vlib.run_tlc, "MCRawDb", raw_cfg(*base, [], RAW_DESIGN_INVS + item.get("design_invs", []), False, 0, item.get("prewrite", False)), os.path.join(wd, "design"), 6,
                                item.get("timeout", 1500))
-                fa = ex.submit(vlib.run_tlc, "MCRawDb", raw_cfg(*base, raw_devs, ["TypeOK"], True, item.get("histk", 0)),
+                fa = ex.submit(vlib.run_tlc, "MCRawDb", raw_cfg(*base, raw_devs, ["TypeOK"], True, item.get("histk", 0), item.get("prewrite", False)),
                                os.path.join(wd, "asis"), 6, item.get("timeout", 1500))
                 d, a = fd.result(), fa.result()
             if d["violated"]:
@@ -425,6 +425,238 @@ def c02(prop, tier, seed):
 
 
 # ----------------------------------------------------------------------------------------------
+# C10: spec/RawConc.tla (interleavings at lock-acquisition granularity) + RawDb.tla reader plan + seeded schedules
+# ----------------------------------------------------------------------------------------------
+def conc_cfg(item, dev, invs, emit):
+    st = lambda xs: "{" + ", ".join('"%s"' % x for x in xs) + "}"
+    nw = item.get("workers", 2)
+    lines = ["SPECIFICATION Spec", "CONSTANTS", "  Workers = {" + ", ".join(str(i) for i in range(1, nw + 1)) + "}", f"  Maint = {nw + 1}",
+             "  Sizes = {" + ", ".join(map(str, item["sizes"])) + "}", f"  MaxOps = {item['maxops']}", f"  MaxMaint = {item.get('maxmaint', 1)}",
+             "  Floor = 256", f"  InitLen = {item.get('initlen', 1)}", f'  Setup = "{item["setup"]}"', f"  PreLen = {item.get('prelen', 0)}",
+             f"  Ops = {st(item['ops'])}", f"  Dev = {st(sorted(dev))}", f"  Depth = {item.get('depth', 60)}", f"  HistK = {item.get('histk', 0)}",
+             "VIEW HView", "CONSTRAINT DepthOK", "CHECK_DEADLOCK FALSE"]
+    lines += [f"INVARIANT {i}" for i in invs]
+    if emit:
+        lines.append("INVARIANT Emit")
+    return "\n".join(lines) + "\n"
+
+
+CONC_INVS = ["Isolated", "ReaderOwn", "Partition", "NoOverlap"]
+
+
+def conc_paths(emitted):
+    hs = [json.loads(x) for x in emitted]
+    keyed = {tuple((s[0], s[1], s[3], s[5]) for s in p): p for p in hs}
+    pref = set()
+    for k in keyed:
+        for i in range(1, len(k)):
+            pref.add(k[:i])
+    return [p for k, p in keyed.items() if k not in pref and k]
+
+
+def conc_item(prop, tier, seed, item, devs):
+    """one RawConc configuration: design check, as-is emission, sharded replay. Returns a dict of partial results."""
+    out = {"states": 0, "trans": 0, "behaviours": 0, "steps": 0, "nontrivial": 0, "ops_checked": 0, "alloc_checked": 0, "alloc_equal": 0, "cut": 0,
+           "unbound": 0, "unbound_example": None, "segs": {}, "known": {}, "violations": [], "sample": None, "run": None}
+    wd = vlib.scratch_dir("conc")
+    try:
+        with cf.ThreadPoolExecutor(2) as ex:
+            fd = ex.submit(vlib.run_tlc, "RawConc", conc_cfg(item, [], CONC_INVS, False), os.path.join(wd, "design"), 4, item.get("timeout", 1800))
+            fa = ex.submit(vlib.run_tlc, "RawConc", conc_cfg(item, devs, [], True), os.path.join(wd, "asis"), 4, item.get("timeout", 1800))
+            d, a = fd.result(), fa.result()
+        if d["violated"]:
+            raise ToolError("RawConc intended design (Dev={}) violates its own invariant: %s" % d["violated"])
+        if a["violated"]:
+            raise ToolError("RawConc as-is run failed: %s" % a["violated"])
+        if not a["distinct"] or not d["distinct"]:
+            raise ToolError("TLC explored nothing (RawConc)")
+        out["states"] = d["distinct"] + a["distinct"]; out["trans"] = d["generated"] + a["generated"]
+        paths = conc_paths(a["emitted"]["REPLAY"])
+        all_paths = len(paths)
+        cap = item.get("max_paths")
+        if cap and len(paths) > cap:
+            # quick tier: a seed-dependent stride through the behaviours (TLC has still checked every state)
+            stride = -(-len(paths) // cap)
+            paths = paths[seed % stride::stride]
+        if paths:
+            lp = max(paths, key=len)
+            out["sample"] = ["%d:%s%s" % (s[0], s[1], ("[%s %s]" % (s[3], s[5])) if s[1] == "op" else "") for s in lp]
+        nsh = max(1, min(8, len(paths) // 500))
+        futs = {}
+        with cf.ThreadPoolExecutor(8) as ex:
+            for si in range(nsh):
+                sf = os.path.join(wd, f"p{si}.ndjson")
+                vlib.write_ndjson(sf, paths[si::nsh])
+                futs[ex.submit(vlib.run_vh, ["concmodel", "--in", sf, "--setup", item["setup"], "--prelen", str(item.get("prelen", 0)),
+                                            "--init-len", str(item.get("initlen", 1)), "--threads", str(item.get("workers", 2) + 1)], 3000)] = si
+            for fu in cf.as_completed(futs):
+                si = futs[fu]
+                r = fu.result()
+                out["behaviours"] += r["behaviours"]; out["steps"] += r["steps"]; out["nontrivial"] += r["distinct_nontrivial"]
+                out["ops_checked"] += r["operations_checked"]; out["alloc_checked"] += r["alloc_checked"]; out["alloc_equal"] += r["alloc_equal"]
+                out["cut"] += r["cut_permitted"]; out["unbound"] += r["unbound"]
+                out["unbound_example"] = out["unbound_example"] or r["unbound_example"]
+                for k, v in r["segments"].items():
+                    out["segs"][k] = out["segs"].get(k, 0) + v
+                for k in r["known"]:
+                    e = out["known"].setdefault(k["dev"], {"count": 0, "history": k["history"]})
+                    e["count"] += k["count"]
+                    if len(k["history"]) < len(e["history"]):
+                        e["history"] = k["history"]
+                for v in r["violations"]:
+                    v.update({"property": prop, "tier": tier, "seed": seed, "kind": "behaviour", "spec": "RawConc", "setup": item["setup"],
+                              "prelen": item.get("prelen", 0), "initlen": item.get("initlen", 1), "workers": item.get("workers", 2),
+                              "steps_full": paths[si::nsh][v["behaviour"]]})
+                    out["violations"].append(v)
+        out["run"] = {k: item.get(k) for k in ("setup", "prelen", "sizes", "maxops", "maxmaint", "ops", "workers")} | \
+                     {"design_states": d["distinct"], "asis_states": a["distinct"], "paths": all_paths, "paths_replayed": len(paths)}
+    finally:
+        shutil.rmtree(wd, ignore_errors=True)
+    return out
+
+
+def conc_run(prop, tier, seed, plan):
+    known_ids = vlib.all_known_devs()
+    devs = sorted(known_ids & {"D8", "D35", "D36"})
+    states = trans = behaviours = steps = nontrivial = ops_checked = alloc_checked = alloc_equal = cut = unbound = 0
+    violations, known_seen, runs, samples, segs = [], {}, [], [], {}
+    unbound_example = None
+    with cf.ThreadPoolExecutor(3) as ex:
+        parts = list(ex.map(lambda it: conc_item(prop, tier, seed, it, devs), plan))
+    for o in parts:
+        states += o["states"]; trans += o["trans"]; behaviours += o["behaviours"]; steps += o["steps"]; nontrivial += o["nontrivial"]
+        ops_checked += o["ops_checked"]; alloc_checked += o["alloc_checked"]; alloc_equal += o["alloc_equal"]; cut += o["cut"]; unbound += o["unbound"]
+        unbound_example = unbound_example or o["unbound_example"]
+        for k, v in o["segs"].items():
+            segs[k] = segs.get(k, 0) + v
+        for dv, e in o["known"].items():
+            e0 = known_seen.setdefault(dv, {"count": 0, "history": e["history"]})
+            e0["count"] += e["count"]
+            if len(e["history"]) < len(e0["history"]):
+                e0["history"] = e["history"]
+        violations += o["violations"]
+        runs.append(o["run"])
+        if o["sample"] and len(samples) < 2:
+            samples.append(o["sample"])
+    # the model must see the deviations it is said to contain (non-vacuity of the invariants): each alone must break an invariant
+    sens = {}
+    wd = vlib.scratch_dir("concsens")
+    try:
+        for dev, item, inv in [
+            ("D35", dict(setup="empty", sizes=[1, 2], maxops=2, ops=["create", "append", "compact"]), "Isolated"),
+            ("D19", dict(setup="empty", sizes=[1], maxops=2, ops=["create", "append"]), "Partition"),
+            ("D8", dict(setup="hole", prelen=1, sizes=[1], maxops=3, ops=["append", "reader", "flush"]), "ReaderOwn")]:
+            r = vlib.run_tlc("RawConc", conc_cfg(item, [dev], CONC_INVS, False), os.path.join(wd, dev), 6, 900)
+            sens[dev] = {"invariant_expected": inv, "tlc_reports": r["violated"]}
+            if not r["violated"] or inv not in r["violated"]:
+                raise ToolError("RawConc with Dev={%s} should violate %s, TLC reports %s" % (dev, inv, r["violated"]))
+            states += r["distinct"]; trans += r["generated"]
+    finally:
+        shutil.rmtree(wd, ignore_errors=True)
+    known_lines = []
+    for dev, e in sorted(known_seen.items()):
+        if all(x in known_ids for x in dev.split("+")):
+            known_lines.append("%s %s" % (dev, " ".join(e["history"])))
+        else:
+            violations.append({"property": prop, "kind": "unlisted-deviation", "dev": dev, "history": e["history"]})
+    if behaviours and unbound * 5 > behaviours:
+        raise ToolError("more than a fifth of the RawConc behaviours could not be bound to the code's lock requests: %s" % unbound_example)
+    cov = {"states": states, "transitions": trans, "traces_validated_against_impl": behaviours, "samples": samples, "evaluations": ops_checked + alloc_checked,
+           "distinct_nontrivial": nontrivial,
+           "rule": "RawConc: TLC enumerates every interleaving (to the stated bounds) of the critical sections of create / append (all placement paths) / truncate / "
+                   "reader / flush / compact run by two worker threads on their own regions and a maintenance thread; Dev={} must satisfy Isolated, ReaderOwn, "
+                   "Partition, NoOverlap; every maximal behaviour of the as-is model is replayed on real threads driven through the lock tap's gate (one model step "
+                   "= one critical section, the request labels must match); the owner's view after each operation, reader bytes, and at quiescence the real layout "
+                   "(compared with the model's) and the extent invariants are checked; non-trivial = steps of at least two threads",
+           "runs": runs, "operations_checked": ops_checked, "layout_compared_at_quiescence": alloc_checked, "layout_equal": alloc_equal,
+           "cut_after_permitted_divergence": cut, "behaviours_not_bound": unbound, "not_bound_example": unbound_example, "segments_replayed": segs,
+           "deviations_taken": {k: v["count"] for k, v in known_seen.items()}, "spec_sensitivity": sens, "exhaustive": tier == "thorough",
+           "replay_sampling": "quick tier replays at most 5000 behaviours per configuration (seed-dependent stride); thorough replays all",
+           "checker_cmd": "tlc RawConc.tla ; vh concmodel"}
+    return {"level": "model_checking", "coverage": cov,
+            "assumptions": ["interleaving granularity: a thread runs from one lock request to the next boundary request without preemption (finer interleavings, e.g. "
+                            "inside a memcpy, are only reached by the seeded free schedules)",
+                            "workers own one region each; page-sized writes of one token; readers are taken only once the file has its final size (a reader blocks "
+                            "file growth by design)", "TLC exhaustiveness is within the stated constants"],
+            "violations": violations, "known": known_lines}
+
+
+def conc_free(prop, tier, seed):
+    """seeded lock-granular schedules of random per-thread programs (vh concreplay)"""
+    known_ids = vlib.all_known_devs()
+    cfgs = [["--threads", "2", "--ops", "14", "--no-remove"], ["--threads", "2", "--ops", "12"], ["--threads", "3", "--ops", "10", "--no-compact", "--no-remove"],
+            ["--threads", "2", "--ops", "10", "--min-len", "4096", "--no-compact", "--no-remove"], ["--threads", "3", "--ops", "8", "--min-len", "4096", "--no-remove"]]
+    n = q(tier, 150, 1500)
+    tot = {"operations": 0, "lock_grants": 0, "distinct_schedules": 0, "timeouts": 0}
+    violations, known_seen, runs = [], {}, []
+    with cf.ThreadPoolExecutor(6) as ex:
+        futs = {ex.submit(vlib.run_vh, ["concreplay", "--schedules", str(n), "--seed", str(seed * 100 + i)] + c, 6000): (i, c) for i, c in enumerate(cfgs)}
+        for fu in cf.as_completed(futs):
+            i, c = futs[fu]
+            r = fu.result()
+            for k in tot:
+                tot[k] += r[k]
+            runs.append({"args": " ".join(c), "operations": r["operations"], "distinct_schedules": r["distinct_schedules"], "timeouts": r["timeouts"]})
+            for k in r["known"]:
+                e = known_seen.setdefault(k["dev"], {"count": 0, "example": k["example"]})
+                e["count"] += k["count"]
+            for v in r["violations"]:
+                v.update({"property": prop, "tier": tier, "kind": "schedule", "spec": "concreplay", "args": c, "run_seed": seed * 100 + i, "schedules": n})
+                violations.append(v)
+    known_lines = []
+    for dev, e in sorted(known_seen.items()):
+        if dev in known_ids:
+            ex_ = e["example"] or {}
+            known_lines.append("%s seeded schedule %s thread %s: %s" % (dev, ex_.get("seed"), ex_.get("thread"), str(ex_.get("what"))[:160]))
+        else:
+            violations.append({"property": prop, "kind": "unlisted-deviation", "dev": dev, "example": e["example"]})
+    cov = {"states": 0, "transitions": 0, "traces_validated_against_impl": tot["distinct_schedules"], "samples": [], "evaluations": tot["operations"],
+           "distinct_nontrivial": tot["distinct_schedules"], "runs": runs, "deviations_taken": {k: v["count"] for k, v in known_seen.items()},
+           "rule": "seeded schedules: worker threads run seeded programs (create, append / positional write / truncate-write of 1 B..40 KB, truncate, rename, remove+recreate, "
+                   "short readers) on their own region, a maintenance thread flushes / compacts; every lock request parks at the gate and a seeded controller releases one "
+                   "thread at a time; after each own operation the region is compared with the thread's private reference, at quiescence the extent invariants are evaluated; "
+                   "timeouts (no progress) are counted, never judged", "lock_grants": tot["lock_grants"], "timeouts": tot["timeouts"]}
+    return {"level": "model_checking", "coverage": cov, "assumptions": ["free schedules sample, they do not enumerate"], "violations": violations, "known": known_lines}
+
+
+def conc_plan(tier):
+    return [dict(it, max_paths=q(tier, 5000, None)) for it in conc_plan0(tier)]
+
+
+def conc_plan0(tier):
+    return [
+        dict(setup="empty", sizes=[1, 2], maxops=q(tier, 2, 3), maxmaint=1, ops=["create", "append", "truncate", "flush", "compact"]),
+        dict(setup="hole", prelen=1, sizes=[1, 2], maxops=2, maxmaint=q(tier, 1, 2), ops=["append", "truncate", "flush", "compact"]),
+        dict(setup="two", prelen=1, sizes=[1, 2], maxops=2, maxmaint=1, ops=["append", "truncate", "reader", "flush"]),
+        dict(setup="hole", prelen=1, sizes=[1], maxops=3, maxmaint=1, ops=["append", "reader", "flush"]),
+    ] + q(tier, [], [
+        dict(setup="two", prelen=0, sizes=[1, 2, 3], maxops=2, maxmaint=2, ops=["append", "truncate", "flush", "compact"]),
+        dict(setup="hole", prelen=1, sizes=[1, 2], maxops=3, maxmaint=1, ops=["append", "reader", "flush", "compact"], timeout=3000),
+    ])
+
+
+@register("C10")
+def c10(prop, tier, seed):
+    conc = conc_run(prop, tier, seed, conc_plan(tier))
+    # a long-lived reader against every sequential history of the allocator (RawDb.tla: ReaderOwn)
+    rdr = raw_run(prop, tier, seed, [
+        dict(names=["a", "b"], sizes=[1, 3], maxfile=24, depth=q(tier, 5, 7), ops=["create", "write", "truncate", "flush", "compact", "reader"],
+             wkinds=["append", "tw0"], pre=["a"], prewrite=True, histk=q(tier, 0, 1), scales=[2048], design_invs=["ReaderOwn"]),
+    ], "non-trivial = length >= 3 containing a relocation, an adjacent-hole growth or a reopen", RAW_ASSUME)
+    free = conc_free(prop, tier, seed)
+    out = conc
+    for r in (rdr, free):
+        for k in ("states", "transitions", "traces_validated_against_impl", "evaluations", "distinct_nontrivial"):
+            out["coverage"][k] += r["coverage"][k]
+        out["violations"] += r["violations"]
+        out["known"] += [k for k in r["known"] if k not in out["known"]]
+        out["assumptions"] += [a for a in r["assumptions"] if a not in out["assumptions"]]
+    out["coverage"]["sequential_reader_plan"] = {k: rdr["coverage"][k] for k in ("runs", "deviations_taken", "allocator_state_compared", "allocator_state_equal")}
+    out["coverage"]["free_schedules"] = {k: free["coverage"][k] for k in ("runs", "deviations_taken", "lock_grants", "timeouts", "rule")}
+    return out
+
+
+# ----------------------------------------------------------------------------------------------
 # import matrix: spec/Import.tla (C14)
 # ----------------------------------------------------------------------------------------------
 def import_cfg(formats, depth, dev, invs, emit):
@@ -496,7 +728,7 @@ def c14(prop, tier, seed):
 # ----------------------------------------------------------------------------------------------
 def crash_run(prop, tier, seed, plan, assumptions):
     known_ids = vlib.all_known_devs()
-    raw_devs = sorted(known_ids & {"D1", "D15"})
+    raw_devs = sorted(known_ids & {"D1", "D15", "D8", "D36"})
     states = trans = behaviours = images = points = events = nontrivial = iomis = regime2 = in_compact = 0
     violations, known_seen, samples, runs = [], {}, [], []
     for item in plan:
@@ -1040,6 +1272,30 @@ def replay(prop, path):
             r = vlib.run_vh(["rawreplay", "--in", nd, "--scale", str(v["scale"]), "--p", str(v["P"]), "--init-len", str(v.get("initlen", 0))])
         finally:
             shutil.rmtree(wd, ignore_errors=True)
+        if r["violations"]:
+            print(json.dumps(r["violations"][0], indent=1))
+            print(f"VIOLATION property={prop} replay={path}")
+            return 1
+        print("replay: no violation")
+        return 0
+    if v.get("spec") == "RawConc" and v.get("steps_full"):
+        wd = vlib.scratch_dir("replay")
+        try:
+            nd = os.path.join(wd, "one.ndjson")
+            vlib.write_ndjson(nd, [v["steps_full"]])
+            r = vlib.run_vh(["concmodel", "--in", nd, "--setup", v["setup"], "--prelen", str(v.get("prelen", 0)), "--init-len", str(v.get("initlen", 1)),
+                             "--threads", str(v.get("workers", 2) + 1)])
+        finally:
+            shutil.rmtree(wd, ignore_errors=True)
+        if r["violations"]:
+            print(json.dumps(r["violations"][0], indent=1))
+            print(f"VIOLATION property={prop} replay={path}")
+            return 1
+        print("replay: no violation")
+        return 0
+    if v.get("spec") == "concreplay" and v.get("args") is not None:
+        # the seeded schedule is re-run (lock-granular order is the seed's; timing inside unlocked code is not controlled)
+        r = vlib.run_vh(["concreplay", "--schedules", str(v["schedules"]), "--seed", str(v["run_seed"])] + v["args"])
         if r["violations"]:
             print(json.dumps(r["violations"][0], indent=1))
             print(f"VIOLATION property={prop} replay={path}")
